@@ -28,4 +28,12 @@ def run(P, R, L):
     K.src1_iterator_sources(P, R, L)
     R.clause("GRD-13", "the per-level file search compares internal keys (a snapshot read of one key of a batch must not stop at the wrong file)")
     K.grd13_find_file_compares_internal_keys(P, R, L)
+    R.clause("ORD-3", "a flush installs the new version before the immutable memtable is dropped (a reader in between must find the whole batch somewhere)")
+    K.ord3_flush(P, R, L)
+    R.clause("VERD-1", "a tombstone found in a memtable ends the lookup (otherwise a reader sees the put of a batch and the pre-batch value of the key it deleted)")
+    K.verd1(P, R, L, what=("memtable", "dbget"))
+    K.bundle_readpath(P, R, L)
+    K.bundle_retention(P, R, L)
+    K.bundle_liveness(P, R, L)
+    K.bundle_recovery(P, R, L)
     R.not_decided += ["sequence arithmetic (prev+1 .. prev+len)", "rotation in the middle of a batch"]
